@@ -16,3 +16,10 @@ func VerifSpacePullWithPeer(ctx context.Context, provider spacestorage.SpaceStor
 	_, err := s.spacePullWithPeer(ctx, p, id, Deps{})
 	return err
 }
+
+// VerifCreateSpaceStorage is the single entry point through which created, pushed and pulled space payloads reach the
+// storage provider.
+func VerifCreateSpaceStorage(ctx context.Context, provider spacestorage.SpaceStorageProvider, payload spacestorage.SpaceStorageCreatePayload) (spacestorage.SpaceStorage, error) {
+	s := &spaceService{storageProvider: provider}
+	return s.createSpaceStorage(ctx, payload)
+}
